@@ -105,6 +105,8 @@ func slotsText(ts []slotTok) string {
 			sb.WriteString("i32")
 		case 'e':
 			fmt.Fprintf(&sb, "i32 %%%d", t.id)
+		case 'q': // the empty quoted name: LLVM reads `%""` as "unnamed"
+			sb.WriteString(`i32 %""`)
 		}
 	}
 	sb.WriteString(") personality i8* null {\n")
@@ -121,20 +123,31 @@ func slotsText(ts []slotTok) string {
 			llvmN++
 		}
 	}
+	pos, my := llvmN, 0 // LLVM's number of the slot at hand (used to REFER to a value defined under the empty quoted name)
 	lhsVal := func(t slotTok, isI32 bool) string {
 		var id string
+		use := ""
 		if t.mode == 'n' {
 			id = "%" + nm()
+		} else if t.mode == 'q' {
+			id, use = `%""`, fmt.Sprintf("%%%d", my)
 		} else {
 			id = fmt.Sprintf("%%%d", t.id)
 		}
+		if use == "" {
+			use = id
+		}
 		if isI32 {
-			i32vals = append(i32vals, id)
+			i32vals = append(i32vals, use)
 		}
 		return id + " = "
 	}
 	lhs := func(t slotTok) string { return lhsVal(t, true) }
 	for _, t := range ts {
+		if t.kind != "P" && t.counting() && t.mode != 'n' {
+			my = pos
+			pos++
+		}
 		switch t.kind {
 		case "B":
 			switch t.mode {
@@ -142,6 +155,8 @@ func slotsText(ts []slotTok) string {
 				sb.WriteString(nm() + ":\n")
 			case 'e':
 				fmt.Fprintf(&sb, "%d:\n", t.id)
+			case 'q':
+				sb.WriteString("\"\":\n")
 			}
 		case "V":
 			sb.WriteString("\t" + lhs(t) + "add i32 0, 0\n")
